@@ -173,6 +173,14 @@ def EvalOK (ef : Node → St → Res × St) : Prop :=
     (s.hit = true → (ef n s).2.hit = true) ∧
     ((ef n s).2.hit = false → Good env inp (ef n s).2 ∧ Den env inp n (ef n s).1)
 
+theorem keepExc_okc (s0 : St) (p : Res × St) (A : Prop) (n : Node)
+    (h : (A → p.2.hit = true) ∧ (p.2.hit = false → Good env inp p.2 ∧ Den env inp n p.1)) :
+    (A → (keepExc s0 p).2.hit = true) ∧
+    ((keepExc s0 p).2.hit = false → Good env inp (keepExc s0 p).2 ∧ Den env inp n (keepExc s0 p).1) := by
+  have ho := keepExc_excOnly s0 p
+  rw [keepExc_fst, ho.hit]
+  exact ⟨h.1, fun hh => ⟨Good.of_sameCache env inp ho.sameCache (h.2 hh).1, (h.2 hh).2⟩⟩
+
 theorem evalNode_ok (ef : Node → St → Res × St) (hef : EvalOK env inp ef) :
     CalleeOK env inp (evalNode env ef) := by
   intro n s hs
@@ -191,7 +199,7 @@ theorem evalNode_ok (ef : Node → St → Res × St) (hef : EvalOK env inp ef) :
         exact ⟨Good.of_sameCache env inp hsc (hs h0), hden _ ((hs h0).sound n v hc hl)⟩
       | none =>
         simp only []
-        have := hef n s hs (fun h0 _ => ?_)
+        have := keepExc_okc env inp s _ _ n (hef n s hs (fun h0 _ => ?_))
         · exact ⟨this.1, fun h => ⟨(this.2 h).1, hden _ (this.2 h).2⟩⟩
         -- an input would be held
         cases hi : inp n with
@@ -201,7 +209,7 @@ theorem evalNode_ok (ef : Node → St → Res × St) (hef : EvalOK env inp ef) :
           rw [hl] at this; cases this
     · have hc' : env.cached n.1 = false := by simpa using hc
       simp only [hc', Bool.false_eq_true, if_false]
-      have := hef n s hs (fun _ h => by simp [hc'] at h)
+      have := keepExc_okc env inp s _ _ n (hef n s hs (fun _ h => by simp [hc'] at h))
       exact ⟨this.1, fun h => ⟨(this.2 h).1, hden _ (this.2 h).2⟩⟩
   · have ha' : env.alive n.1 = false := by simpa using ha
     simp only [ha', Bool.false_eq_true, if_false]
@@ -362,12 +370,14 @@ theorem evalNode_complete (d : Nat) (ef : Node → St → Res × St)
         exact Den_det env inp n _ _ (hg.sound n v hc hl) ⟨d, hd⟩
       | none =>
         simp only []
+        rw [keepExc_fst, (keepExc_excOnly s _).hit]
         refine hef n s r hg h0 (fun _ => ?_) hd
         cases hi : inp n with
         | none => rfl
         | some v => have := hg.inputsHeld n v hc hi; rw [hl] at this; cases this
     · have hc' : env.cached n.1 = false := by simpa using hc
       simp only [hc', Bool.false_eq_true, if_false]
+      rw [keepExc_fst, (keepExc_excOnly s _).hit]
       exact hef n s r hg h0 (fun h => by simp [hc'] at h) hd
   · have ha' : env.alive n.1 = false := by simpa using ha
     rw [calleeAt_dead _ ha'] at hd
